@@ -12,7 +12,8 @@ load_all()
 import faulthandler
 if os.environ.get("FH"):
     faulthandler.dump_traceback_later(int(os.environ["FH"]), repeat=True)
-q = [x for x in REG.contracts if sys.argv[1] in x and not REG.contracts[x].trusted][0]
+_c = [x for x in REG.contracts if sys.argv[1] in x and not REG.contracts[x].trusted]
+q = ([x for x in _c if x.endswith(sys.argv[1])] or _c)[0]
 slow = float(os.environ.get('SLOW', '1'))
 
 
